@@ -45,6 +45,10 @@ impl Scheduler {
             debug!("next: {:?}", signal);
             match signal {
                 Signal::Task(task) => {
+                    // a task that finishes here reviews its parent just like a client action does: the
+                    // two take turns, or both would find every child finished and create the successor
+                    let proc = task.proc().clone();
+                    let _lock = proc.lock_actions();
                     let ctx = &task.create_context();
                     task.exec(ctx).unwrap_or_else(|err| {
                         eprintln!("error: {err}");
